@@ -101,8 +101,8 @@ func builtinNumberToExponential(call FunctionCall) Value {
 		// ES5 15.7.4.6 step 6, before the range check of step 7.
 		return stringValue(floatToString(number, 64))
 	}
-	if fractionDigits.IsDefined() && 0 > precision {
-		panic(call.runtime.panicRangeError("toString() radix must be between 2 and 36"))
+	if fractionDigits.IsDefined() && (0 > precision || precision > 20) {
+		panic(call.runtime.panicRangeError("toExponential() argument must be between 0 and 20"))
 	}
 	return stringValue(strconv.FormatFloat(number, 'e', int(precision), 64))
 }
@@ -121,8 +121,8 @@ func builtinNumberToPrecision(call FunctionCall) Value {
 		// ES5 15.7.4.7 step 7, before the range check of step 8.
 		return stringValue(floatToString(number, 64))
 	}
-	if 1 > precision {
-		panic(call.runtime.panicRangeError("toPrecision() precision must be greater than 1"))
+	if 1 > precision || precision > 21 {
+		panic(call.runtime.panicRangeError("toPrecision() argument must be between 1 and 21"))
 	}
 	return stringValue(strconv.FormatFloat(number, 'g', int(precision), 64))
 }
